@@ -311,6 +311,7 @@ func c15eGen(r *rng, tier string, emit func(string)) {
 			emit(fmt.Sprintf("evilgmc %s %s %x", v, opt, r.u64()))
 		}
 	}
+	c15kxGen(r, tier, emit) // key-exchange messages that do not fit the selected suite (harness/c15evil2.go)
 }
 
 // evilgmc <variant> <server options> <seed> : a scripted GM CLIENT (gmtls/export_verif_c08.go, VerifEvilClient: a copy
